@@ -610,6 +610,19 @@ class Interp(object):
             odml.save(d, path, backend)
             self.U.files.append({"path": path, "backend": backend})
             new = odml.load(path, backend)
+        elif via == "writer":
+            # the application keeps one XMLWriter per document and comes back to it after
+            # every round of edits: each time it writes the document as it is then
+            from odml.tools.xmlparser import XMLWriter
+            path = self._path("restart%d" % len(self.U.files), "xml")
+            kept = self.U.__dict__.setdefault("writers", {})
+            key = self.U.index(d)
+            if key not in kept:
+                kept[key] = XMLWriter(d)
+                str(kept[key])          # looked at once before it is used
+            kept[key].write_file(path)
+            self.U.files.append({"path": path, "backend": "xml"})
+            new = odml.load(path, "xml")
         else:
             from odml.tools.odmlparser import ODMLWriter, ODMLReader
             text = ODMLWriter(backend).to_string(d)
